@@ -131,6 +131,40 @@ class LineCov:
         return rep
 
 
+def run_limited(fn, limit_s):
+    """Run fn() in a forked child and return its wall time in seconds, or None when it has not finished within limit_s (the child
+    is killed).  For measurements that may take exponentially long inside C code (the regex engine), where no signal handler
+    can interrupt the call."""
+    import select
+    import signal
+    import struct
+    r, w = os.pipe()
+    pid = os.fork()
+    if pid == 0:
+        try:
+            os.close(r)
+            t0 = time.perf_counter()
+            try:
+                fn()
+            except BaseException:       # noqa: BLE001  (the outcome is not the point, the time is)
+                pass
+            os.write(w, struct.pack('d', time.perf_counter() - t0))
+        finally:
+            os._exit(0)
+    os.close(w)
+    try:
+        ready, _, _ = select.select([r], [], [], limit_s)
+        if ready:
+            data = os.read(r, 8)
+            os.waitpid(pid, 0)
+            return struct.unpack('d', data)[0] if len(data) == 8 else None
+        os.kill(pid, signal.SIGKILL)
+        os.waitpid(pid, 0)
+        return None
+    finally:
+        os.close(r)
+
+
 class LibraryDidNotTerminate(Exception):
     """Raised (by the watchdog) inside a call into the library that has not returned within the limit: a hang of the real code
     on a concrete input becomes an exception the sweep records like any other wrong outcome, instead of hanging the check."""
@@ -420,11 +454,11 @@ class Check:
 
 
 MODULES = {
-    'C01': ['C01', 'C01Attr', 'C01Sat', 'C01Ns', 'C01Has'],
+    'C01': ['C01', 'C01Attr', 'C01Sat', 'C01Ns', 'C01Has', 'C01Parse'],
     'C02': ['C02', 'C02Site'],
     'C03': ['C03', 'C03Wrappers'],
     'C07': ['C07', 'C07Parse'],
-    'C09': ['C09', 'C09Rx', 'C09Compile'],
+    'C09': ['C09', 'C09Rx', 'C09Compile', 'C09Compile2'],
     'C10': ['C10', 'C10Rx'],
     'C13': ['C13', 'C13Rx'],
     'C17': ['C17', 'C17Dir'],
@@ -433,11 +467,11 @@ MODULES = {
     'C20': ['C20', 'C20Rx'],
 }
 AUDITS = {
-    'C01': ['C01', 'C01Attr', 'C01Sat', 'C01Has'],
+    'C01': ['C01', 'C01Attr', 'C01Sat', 'C01Has', 'C01Parse'],
     'C02': ['C02', 'C02Site'],
     'C03': ['C03', 'C03Wrappers'],
     'C07': ['C07', 'C07Parse'],
-    'C09': ['C09', 'C09Rx', 'C09Compile'],
+    'C09': ['C09', 'C09Rx', 'C09Compile', 'C09Compile2'],
     'C10': ['C10', 'C10Rx'],
     'C13': ['C13', 'C13Rx'],
     'C17': ['C17', 'C17Dir'],
